@@ -352,4 +352,41 @@ theorem seqSlots_bounded (slots new : List Nat) (st : PState) (hb : Bounded st)
           simp only [ha] at h
           exact Out.noConfusion h
 
+/-! ### auto_optimize's clamping loop -/
+
+theorem addClamp_mono (tol : Rat) (pts : List V3) (st : List Nat) (pos : V3) (i : Nat) (h : i ∈ st) :
+    i ∈ (addClamp tol pts st pos).2 := by
+  unfold addClamp
+  cases firstNear tol pos pts 0 with
+  | none => exact h
+  | some k => by_cases hc : k ∈ st <;> simp [hc, h]
+
+theorem autoClamps_nodup (tol : Rat) (pts : List V3) (js st : List Nat) (h : st.Nodup) :
+    (autoClamps tol pts js st).2.Nodup := by
+  induction js generalizing st with
+  | nil => simpa [autoClamps]
+  | cons j js ih =>
+      unfold autoClamps
+      cases hp : pts[j]? with
+      | none => simpa
+      | some p =>
+          simp only
+          cases ha : (addClamp tol pts st p).1 with
+          | accept => simp only; exact ih _ (addClamp_nodup tol pts st p h)
+          | reject c => simp only; exact addClamp_nodup tol pts st p h
+
+theorem autoClamps_mono (tol : Rat) (pts : List V3) (js st : List Nat) (i : Nat) (h : i ∈ st) :
+    i ∈ (autoClamps tol pts js st).2 := by
+  induction js generalizing st with
+  | nil => simpa [autoClamps]
+  | cons j js ih =>
+      unfold autoClamps
+      cases hp : pts[j]? with
+      | none => simpa
+      | some p =>
+          simp only
+          cases ha : (addClamp tol pts st p).1 with
+          | accept => simp only; exact ih _ (addClamp_mono tol pts st p i h)
+          | reject c => simp only; exact addClamp_mono tol pts st p i h
+
 end CBV.C20
